@@ -307,8 +307,10 @@ func (r *Report) writeEvidence(nViol int) {
 	var samples []map[string]interface{}
 	var harn []map[string]interface{}
 	unwind := 0
+	aliasRelax := 0
 	for _, jr := range r.results {
 		e, s := jr.Eng, jr.Sol
+		aliasRelax += e.AliasRelax
 		states += e.Completed
 		transitions += e.Decisions
 		asserts += e.Asserts
@@ -438,6 +440,7 @@ func (r *Report) writeEvidence(nViol int) {
 			"load_and_ssa_build_s":          round2(r.loadS),
 			"unknown":                       unknown,
 			"unwind_failures":               unwind,
+			"append_alias_relaxations":      aliasRelax,
 			"cover_points":                  covers,
 			"path_witnesses_replayed":       r.witnessTotal,
 			"inconclusive":                  r.inconcl,
